@@ -296,3 +296,35 @@ def ifs_raising(fn: ast.AST, exc_name: str) -> list[ast.If]:
             if isinstance(f, ast.Name) and f.id == exc_name:
                 out.append(n)
     return out
+
+
+def skeleton(fn: ast.AST, holes: dict | None = None) -> str:
+    """normalised source text of a function or class (ast.unparse: layout and comments do not matter), docstring stripped,
+    with the given sub-expression texts replaced by hole names (longest first)"""
+    import copy
+    fn = copy.deepcopy(fn)
+    if getattr(fn, "body", None) and isinstance(fn.body[0], ast.Expr) and isinstance(fn.body[0].value, ast.Constant) \
+            and isinstance(fn.body[0].value.value, str):
+        fn.body = fn.body[1:] or [ast.Pass()]
+    t = ast.unparse(fn)
+    for k, v in sorted((holes or {}).items(), key=lambda kv: -len(kv[0])):
+        t = t.replace(k, v)
+    return t
+
+
+def check_pin(pid: str, name: str, text: str, what: str) -> None:
+    """compare `text` with the committed pin tools/pins/<name>; raise Unsupported with a short diff when they differ.
+    VERIF_WRITE_PINS=<pid> rewrites the pin (maintenance, after the hand-written model was reviewed against the source)."""
+    path = os.path.join(os.path.dirname(os.path.abspath(__file__)), "pins", name)
+    if os.environ.get("VERIF_WRITE_PINS") == pid:
+        with open(path, "w") as fh:
+            fh.write(text)
+    try:
+        with open(path) as fh:
+            want = fh.read()
+    except OSError:
+        want = ""
+    if text != want:
+        import difflib
+        d = "\n".join(list(difflib.unified_diff(want.splitlines(), text.splitlines(), "pinned", "source", lineterm="", n=1))[:40])
+        raise Unsupported(f"{what} changed (the hand-written model was written against tools/pins/{name}):\n" + d)
